@@ -33,6 +33,12 @@ Proof.
   intros t H. rewrite forallb_forall in K. apply K in H. apply Z.leb_le in H. exact H.
 Qed.
 
+Lemma code_locked_false : code_locked = false.
+Proof. reflexivity. Qed.
+
+Lemma step_eq : forall s e, step s e = step_gen false s e.
+Proof. intros. unfold step. rewrite code_locked_false. reflexivity. Qed.
+
 (* ---- traces ----------------------------------------------------------------------------- *)
 Definition plain (its : list item) : Prop := forall it, In it its -> fst it <> 20 /\ fst it <> 21.
 
@@ -130,7 +136,9 @@ Section Invariant.
     i_off : forall it, In it (offenders false (out s)) -> good_off it;
     i_uq : forallb user_ok (uq s) = true;
     i_ttw : forall its, ttw s = Some its -> cts s = false /\ blocked_ok its;
-    i_dead : dead s = true -> ttw s <> None }.
+    i_dead : dead s = true -> ttw s <> None;
+    i_lk : lk s = false;
+    i_ttl : ttl s = false }.
 
   Definition ev_ok (e : ev) : Prop :=
     match e with
@@ -163,7 +171,12 @@ Section Invariant.
     - apply (i_uq s I).
     - apply (i_ttw s I).
     - apply (i_dead s I).
+    - apply (i_lk s I).
+    - apply (i_ttl s I).
   Qed.
+
+  Lemma inv_set_lk : forall s l, Inv s -> l = false -> Inv (set_lk s l).
+  Proof. intros s l I H. destruct I. constructor; simpl; auto. Qed.
 
   Lemma inv_set_uq : forall s q, Inv s -> forallb user_ok q = true -> Inv (set_uq s q).
   Proof. intros s q I H. destruct I. constructor; simpl; auto. Qed.
@@ -193,6 +206,8 @@ Section Invariant.
     - apply (i_uq s I).
     - rewrite T. discriminate.
     - intros D. apply (i_dead s I) in D. contradiction.
+    - apply (i_lk s I).
+    - apply (i_ttl s I).
   Qed.
 
   Lemma free_none : forall s, tt_free s = true -> ttw s = None.
@@ -236,7 +251,10 @@ Section Invariant.
       - apply (i_off s I).
       - apply (i_uq s I).
       - rewrite T. discriminate.
-      - intros D. apply (i_dead s I) in D. contradiction. }
+      - intros D. apply (i_dead s I) in D. contradiction.
+      - apply (i_lk s I).
+      - apply (i_ttl s I). }
+    rewrite (i_lk s I), andb_false_r.
     destruct w; [|exact I].
     simpl in OK. destruct (disc_of p) eqn:D; [exact I| |].
     - apply inv_emit; auto using replies_plain. right. intros it Hin.
@@ -246,10 +264,15 @@ Section Invariant.
       apply OK; [reflexivity|discriminate].
   Qed.
 
-  Lemma inv_step : forall s e, Inv s -> ev_ok e -> Inv (step s e).
+  Lemma inv_step : forall s e, Inv s -> ev_ok e -> Inv (step_gen false s e).
   Proof.
-    intros s e I OK. unfold step. destruct (dead s); [exact I|].
+    intros s e I OK. unfold step_gen. destruct (dead s); [exact I|].
     destruct e.
+    - destruct (user_ok t) eqn:U; [|exact I]. destruct (cts s) eqn:C.
+      + apply inv_emit; auto.
+        intros it [H|[]]. subst. simpl. unfold user_ok in U. apply negb_true_iff in U.
+        apply orb_false_iff in U. destruct U as [U1 U2]. apply Z.eqb_neq in U1. apply Z.eqb_neq in U2. auto.
+      + apply inv_set_uq; auto. rewrite forallb_app, (i_uq s I). simpl. rewrite U. reflexivity.
     - destruct (user_ok t) eqn:U; [|exact I]. destruct (cts s) eqn:C.
       + apply inv_emit; auto.
         intros it [H|[]]. subst. simpl. unfold user_ok in U. apply negb_true_iff in U.
@@ -258,7 +281,7 @@ Section Invariant.
     - destruct (uq s) as [|t r] eqn:Q; [exact I|]. destruct (cts s) eqn:C; [|exact I].
       pose proof (i_uq s I) as U. rewrite Q in U. simpl in U. apply andb_prop in U. destruct U as [U1 U2].
       apply inv_emit.
-      + apply inv_set_uq; auto.
+      + apply inv_set_lk; [apply inv_set_uq; auto|]. simpl. rewrite (i_lk s I). reflexivity.
       + intros it [H|[]]. subst. simpl. unfold user_ok in U1. apply negb_true_iff in U1.
         apply orb_false_iff in U1. destruct U1 as [V1 V2]. apply Z.eqb_neq in V1. apply Z.eqb_neq in V2. auto.
       + left. exact C.
@@ -279,7 +302,7 @@ Section Invariant.
   Lemma inv_run : forall evs s, Inv s -> Forall ev_ok evs -> Inv (run s evs).
   Proof.
     induction evs as [|e r IH]; simpl; intros s I F; [exact I|].
-    inversion F; subst. apply IH; auto. apply inv_step; auto.
+    inversion F; subst. apply IH; auto. rewrite step_eq. apply inv_step; auto.
   Qed.
 End Invariant.
 
@@ -328,8 +351,9 @@ Lemma stuck_step : forall s e its, Inv AnyP True s -> ttw s = Some its ->
 Proof.
   intros s e its I T. destruct (i_ttw _ _ _ I its T) as [C _].
   assert (NI : is_idle (ph s) = false) by (rewrite <- (i_cts _ _ _ I); exact C).
-  unfold step. destruct (dead s); [simpl; auto|].
+  rewrite step_eq. unfold step_gen. destruct (dead s); [simpl; auto|].
   destruct e; simpl; unfold tt_free; rewrite ?T, ?C, ?NI; simpl; auto.
+  - destruct (user_ok t); simpl; auto.
   - destruct (user_ok t); simpl; auto.
   - destruct (uq s); simpl; auto.
 Qed.
@@ -341,7 +365,7 @@ Proof.
   - destruct (i_ttw _ _ _ I its T) as [C _]. auto.
   - destruct (stuck_step s e its I T) as [O [C [T' _]]].
     assert (I' : Inv AnyP True (step s e)).
-    { apply inv_step; auto. destruct e; simpl; unfold AnyP; auto. }
+    { rewrite step_eq. apply inv_step; auto. destruct e; simpl; unfold AnyP; auto. }
     destruct (IH (step s e) its I' T') as [O2 [C2 T2]]. rewrite O2, O. auto.
 Qed.
 
@@ -384,12 +408,12 @@ Lemma run_app : forall a b s, run s (a ++ b) = run (run s a) b.
 Proof. intros. unfold run. apply fold_left_app. Qed.
 
 Lemma drain : forall q ph0 n k o,
-  fold_left step (repeat UserWake (length q)) (mkst ph0 true n k None q false o) =
-  mkst ph0 true n k None [] false (o ++ map (fun t => (t, OUser)) q).
+  fold_left step (repeat UserWake (length q)) (mkst ph0 true n k None q false o false false) =
+  mkst ph0 true n k None [] false (o ++ map (fun t => (t, OUser)) q) false false.
 Proof.
   induction q as [|t r IH]; intros ph0 n k o; simpl.
   - rewrite app_nil_r. reflexivity.
-  - unfold step at 2. simpl. unfold emit, set_uq. simpl. rewrite IH. rewrite <- app_assoc. reflexivity.
+  - rewrite step_eq. unfold step_gen. simpl. unfold emit, set_lk, set_uq. simpl. rewrite IH. rewrite <- app_assoc. reflexivity.
 Qed.
 
 Definition out_after (p : phase) (o : list item) : list item :=
@@ -403,8 +427,8 @@ Lemma out_after_eq : forall p o, out_after p o = o ++ kexpart p.
 Proof. destruct p; intros o; simpl; rewrite <- ?app_assoc, ?app_nil_r; reflexivity. Qed.
 
 Lemma complete_run : forall p n k q o,
-  fold_left step (complete p) (mkst p (is_idle p) n k None q false o) =
-  mkst Idle true (match p with Idle => n | _ => false end) k None q false (out_after p o).
+  fold_left step (complete p) (mkst p (is_idle p) n k None q false o false false) =
+  mkst Idle true (match p with Idle => n | _ => false end) k None q false (out_after p o) false false.
 Proof. destruct p; intros; reflexivity. Qed.
 
 Lemma queued_delivered :
@@ -418,12 +442,55 @@ Proof.
   intros keep evs s D T.
   pose proof (reach_inv keep evs) as I. fold s in I.
   pose proof (i_kf _ _ _ I) as K. pose proof (i_cts _ _ _ I) as C. pose proof (i_uq _ _ _ I) as U.
-  apply users_plain in U. clear I.
-  destruct s as [p c n k t q d o]. simpl in *. subst d t c.
+  apply users_plain in U. pose proof (i_lk _ _ _ I) as L. pose proof (i_ttl _ _ _ I) as TL. clear I.
+  destruct s as [p c n k t q d o l tl]. simpl in *. subst d t c l tl.
   unfold run. rewrite fold_left_app, complete_run, drain. simpl.
   rewrite out_after_eq, <- app_assoc. repeat split; auto.
   rewrite !off_app, K.
   destruct p; simpl; unfold kstep; simpl; rewrite (off_plain_false _ U), ?app_nil_r; reflexivity.
+Qed.
+
+(* ---- locks: no gated send under self.lock in the working tree, hence no lock wait ------------------ *)
+Lemma no_send_under_lock : locked_send_count = 0.
+Proof. reflexivity. Qed.
+
+Lemma tt_never_waits_on_lock :
+  forall keep evs, ttl (run (init_st keep) evs) = false /\ lk (run (init_st keep) evs) = false.
+Proof. intros. pose proof (reach_inv keep evs) as I. split; [apply (i_ttl _ _ _ I)|apply (i_lk _ _ _ I)]. Qed.
+
+(* what the generated fact protects against: if some user operation did its gated send under the lock,
+   a crossing message whose handler needs the lock stalls the exchange for good (in the model: until the
+   user's own timeout, which is outside it) *)
+Lemma lock_stuck_step : forall b s e, ttl s = true -> cts s = false -> is_idle (ph s) = false ->
+  let s' := step_gen b s e in
+  out s' = out s /\ cts s' = false /\ ttl s' = true /\ is_idle (ph s') = false.
+Proof.
+  intros b s e TL C NI. unfold step_gen. destruct (dead s); [simpl; auto|].
+  destruct e; simpl; unfold tt_free; rewrite ?TL, ?C, ?NI; simpl; auto.
+  - destruct (user_ok t); simpl; auto.
+  - destruct (user_ok t); simpl; auto. destruct b; simpl; auto.
+  - destruct (uq s); simpl; auto.
+  - destruct (ttw s); simpl; auto.
+  - destruct (ttw s); simpl; auto.
+  - destruct (ttw s); simpl; auto.
+  - destruct (ttw s); simpl; auto.
+Qed.
+
+Lemma lock_stuck : forall b evs s, ttl s = true -> cts s = false -> is_idle (ph s) = false ->
+  out (run_gen b s evs) = out s /\ cts (run_gen b s evs) = false /\ ttl (run_gen b s evs) = true.
+Proof.
+  induction evs as [|e r IH]; simpl; intros s TL C NI; [auto|].
+  destruct (lock_stuck_step b s e TL C NI) as [O [C' [TL' NI']]].
+  destruct (IH _ TL' C' NI') as [O2 [C2 T2]]. rewrite O2, O. auto.
+Qed.
+
+Lemma locked_send_would_deadlock :
+  let s := run_gen true (init_st false) [UserRekey; UserSendLocked 96; Recv 93 false] in
+  needs_lock 93 = true /\ ttl s = true /\ map fst (out s) = [20] /\
+  forall evs, out (run_gen true s evs) = out s /\ cts (run_gen true s evs) = false.
+Proof.
+  intros s. split; [reflexivity|]. split; [reflexivity|]. split; [reflexivity|].
+  intros evs. destruct (lock_stuck true evs s) as [O [C _]]; try reflexivity. auto.
 Qed.
 
 (* ---- what fails in the code as written (witnesses over the generated table) ----------------------- *)
@@ -497,5 +564,6 @@ Lemma shape_facts :
   gate_waits = true /\ kexinit_clears_first = true /\ negotiate_clears_first = true /\
   newkeys_sets = true /\ flag_set_only_in_newkeys = true /\ send_message_is_packetizer = true /\
   public_ungated_count = 0 /\ kex_gate_uses = 0 /\ MSG_KEXINIT = 20 /\ MSG_NEWKEYS = 21 /\
-  HIGHEST_USERAUTH_MESSAGE_ID < 80.
+  HIGHEST_USERAUTH_MESSAGE_ID < 80 /\ MSG_GLOBAL_REQUEST = 80 /\ MSG_CHANNEL_OPEN = 90 /\
+  MSG_CHANNEL_DATA = 94 /\ MSG_CHANNEL_CLOSE = 97 /\ MSG_CHANNEL_REQUEST = 98.
 Proof. vm_compute. repeat split; try reflexivity; discriminate. Qed.
